@@ -1,7 +1,7 @@
 """C20 - the guarantees hold for any well-formed configuration, not only the demo one"""
-from ..rules import vocab
+from ..rules import vocab, extrapolate, search
 
-DECIDES = ('no literal of the demo vocabulary (recomputed from the folded configuration on every run) in a semantic position of library code (R-VOCAB); leaf / narrowing / alias / key-order / separator decisions read the configured tables (R-TBL); values are never case-folded (R-NOCASE); no class-level container shared between configurations (R-CLASSSTATE); the loaders copy every member of the configuration modules, chosen by configured name (R-LOADALL).')
+DECIDES = ("no literal of the demo vocabulary (recomputed from the folded configuration on every run) in a semantic position of library code (R-VOCAB); leaf / narrowing / alias / key-order / separator decisions read the configured tables (R-TBL); values are never case-folded (R-NOCASE); no class-level container shared between configurations (R-CLASSSTATE); the loaders copy every member of the configuration modules, chosen by configured name (R-LOADALL). Also: extrapolation, template selection and '**' expansion read the configured tables only (R-EXTRAPOLATE, R-SEL, R-EXPAND).")
 DOES_NOT_DECIDE = 'behaviour under a generated configuration'
 
 
@@ -12,4 +12,7 @@ def rules(ctx, tier):
         lambda: vocab.rule_nocase(ctx),
         lambda: vocab.rule_classstate(ctx),
         lambda: vocab.rule_loadall(ctx),
+        lambda: extrapolate.rule_extrapolate(ctx),
+        lambda: extrapolate.rule_sel(ctx),
+        lambda: search.rule_expand(ctx),
     ]
